@@ -4,7 +4,6 @@ import (
 	"encoding/binary"
 	"encoding/hex"
 	"hash"
-	"path"
 	"strconv"
 	"strings"
 
@@ -237,6 +236,20 @@ func newDigestFromByteStreamPathCommon(header, trailer []string) (Digest, remote
 	return d, compressor, err
 }
 
+// joinNonEmpty joins the non-empty elements with slashes. Unlike
+// path.Join() it does not clean the result: instance names may contain
+// "." and ".." components, which must be preserved for the resulting
+// resource name to be parsed back to the same instance name.
+func joinNonEmpty(elements ...string) string {
+	nonEmpty := make([]string, 0, len(elements))
+	for _, element := range elements {
+		if element != "" {
+			nonEmpty = append(nonEmpty, element)
+		}
+	}
+	return strings.Join(nonEmpty, "/")
+}
+
 // GetByteStreamReadPath converts the Digest to a string having
 // one of the following formats:
 //
@@ -246,7 +259,7 @@ func newDigestFromByteStreamPathCommon(header, trailer []string) (Digest, remote
 // This notation is used to read files through the ByteStream service.
 func (d Digest) GetByteStreamReadPath(compressor remoteexecution.Compressor_Value) string {
 	digestFunction, hashStart, hashEnd, sizeBytes, sizeBytesEnd := d.unpack()
-	return path.Join(
+	return joinNonEmpty(
 		d.value[sizeBytesEnd+1:],
 		compressorEnumToMidfix[compressor],
 		digestFunctionEnumToMidfix[digestFunction],
@@ -264,7 +277,7 @@ func (d Digest) GetByteStreamReadPath(compressor remoteexecution.Compressor_Valu
 // This notation is used to write files through the ByteStream service.
 func (d Digest) GetByteStreamWritePath(uuid uuid.UUID, compressor remoteexecution.Compressor_Value) string {
 	digestFunction, hashStart, hashEnd, sizeBytes, sizeBytesEnd := d.unpack()
-	return path.Join(
+	return joinNonEmpty(
 		d.value[sizeBytesEnd+1:],
 		"uploads",
 		uuid.String(),
